@@ -27,8 +27,10 @@ import (
 	"encoding/json"
 	"fmt"
 	"os"
+	"runtime"
 	"sort"
 	"strings"
+	"sync"
 
 	"lunar/engine/config"
 	"lunar/engine/runner"
@@ -128,7 +130,7 @@ func pairs(m map[string]string) [][2]string {
 	return res
 }
 
-func runGroup(g Group) GroupOut {
+func endpointsOf(g Group) []sharedConfig.EndpointConfig {
 	eps := make([]sharedConfig.EndpointConfig, len(g.Decls))
 	for i, d := range g.Decls {
 		remedy := remedyOfType(fmt.Sprintf("d%d", i+1), d.T)
@@ -152,6 +154,11 @@ func runGroup(g Group) GroupOut {
 			eps[i].Diagnosis = []sharedConfig.Diagnosis{diagnosis}
 		}
 	}
+	return eps
+}
+
+func runGroup(g Group) GroupOut {
+	eps := endpointsOf(g)
 	global := &sharedConfig.Global{}
 	res := GroupOut{}
 	for _, ord := range g.Orders {
@@ -197,11 +204,98 @@ func runGroup(g Group) GroupOut {
 	return res
 }
 
+// storm: the same selection with several dispatches in flight. The tree of a group is built once (first order);
+// G goroutines go through the requests again and again, each calls the dispatcher's getRemedies / getDiagnoses,
+// yields, and only then reads what it was given - as the real dispatcher does while other transactions are
+// dispatched. Output per group: for every request the DISTINCT outcomes any goroutine saw.
+//
+//	{"err":"", "outs":[[Out, ...], ...]}
+type StormOut struct {
+	Err  string  `json:"err"`
+	Outs [][]Out `json:"outs"`
+}
+
+func stormGroup(g Group, goroutines, rounds int) StormOut {
+	res := StormOut{Outs: make([][]Out, len(g.Reqs))}
+	eps := endpointsOf(g)
+	list := make([]sharedConfig.EndpointConfig, 0, len(eps))
+	for _, k := range g.Orders[0] {
+		list = append(list, eps[k-1])
+	}
+	tree, err := config.BuildEndpointPolicyTree(list)
+	if err != nil {
+		res.Err = err.Error()
+		return res
+	}
+	global := &sharedConfig.Global{}
+	seen := make([]map[string]Out, len(g.Reqs))
+	for i := range seen {
+		seen[i] = map[string]Out{}
+	}
+	var mu sync.Mutex
+	var wg sync.WaitGroup
+	start := make(chan struct{})
+	for w := 0; w < goroutines; w++ {
+		wg.Add(1)
+		go func(w int) {
+			defer wg.Done()
+			<-start
+			for r := 0; r < rounds; r++ {
+				for k := range g.Reqs {
+					ri := (k + w) % len(g.Reqs)
+					rq := g.Reqs[ri]
+					url := render(rq.H, rq.P)
+					rem := runner.VerifGetRemedies(rq.M, url, tree, global)
+					diag := runner.VerifGetDiagnoses(rq.M, url, tree, global.Diagnosis)
+					runtime.Gosched()
+					o := Out{Sel: []Sel{}, DSel: []Sel{}}
+					for _, sr := range rem {
+						name := ""
+						if sr.Remedy != nil {
+							name = sr.Remedy.Name
+						}
+						o.Sel = append(o.Sel, Sel{R: name, Norm: sr.NormalizedURL, Params: pairs(sr.PathParams)})
+					}
+					for _, sd := range diag {
+						name := ""
+						if sd != nil && sd.Diagnosis != nil {
+							name = sd.Diagnosis.Name
+							o.DSel = append(o.DSel, Sel{R: name, Norm: sd.NormalizedURL, Params: [][2]string{}})
+						}
+					}
+					lk := tree.Lookup(url)
+					o.Lk = Lk{Match: lk.Match, Norm: lk.NormalizedURL, Params: pairs(lk.PathParams), Val: []string{}}
+					b, _ := json.Marshal(o)
+					mu.Lock()
+					if _, ok := seen[ri][string(b)]; !ok {
+						seen[ri][string(b)] = o
+					}
+					mu.Unlock()
+				}
+			}
+		}(w)
+	}
+	close(start)
+	wg.Wait()
+	for ri := range g.Reqs {
+		keys := make([]string, 0, len(seen[ri]))
+		for k := range seen[ri] {
+			keys = append(keys, k)
+		}
+		sort.Strings(keys)
+		for _, k := range keys {
+			res.Outs[ri] = append(res.Outs[ri], seen[ri][k])
+		}
+	}
+	return res
+}
+
 func main() {
 	vh.Quiet()
-	if len(os.Args) != 4 || os.Args[1] != "run" {
-		vh.Die("usage: c13 run <groups.ndjson> <out.ndjson>")
+	if len(os.Args) != 4 || (os.Args[1] != "run" && os.Args[1] != "storm") {
+		vh.Die("usage: c13 run|storm <groups.ndjson> <out.ndjson>")
 	}
+	stormMode := os.Args[1] == "storm"
 	in, err := os.Open(os.Args[2])
 	if err != nil {
 		vh.Die("open: %v", err)
@@ -224,7 +318,13 @@ func main() {
 		if err := json.Unmarshal(line, &g); err != nil {
 			vh.Die("parse group %d: %v", n, err)
 		}
-		b, err := json.Marshal(runGroup(g))
+		var result any
+		if stormMode {
+			result = stormGroup(g, 8, 40)
+		} else {
+			result = runGroup(g)
+		}
+		b, err := json.Marshal(result)
 		if err != nil {
 			vh.Die("marshal: %v", err)
 		}
